@@ -243,76 +243,66 @@ impl TestRunner {
             self.ram.read().unwrap().ram[self.cpu.get_program_counter() as usize]
         );
 
-        // Check active elements
-        let mut active_traces = vec![];
-        let mut active_assertions = vec![];
-        let mut idx = 0;
-        while idx < self.test_elements.len() {
-            let should_remove = match &self.test_elements[idx] {
-                TestElement::Assertion(e) => {
-                    e.snapshot.pc.as_u16() == self.cpu.get_program_counter()
-                }
-                TestElement::Trace(e) => e.snapshot.pc.as_u16() == self.cpu.get_program_counter(),
-            };
+        // Check active elements. An element stays registered after it has fired: an assertion or trace inside
+        // a loop or a subroutine is evaluated every time execution reaches it, not just the first time.
+        let pc = self.cpu.get_program_counter();
+        let registers = self.registers();
+        let flags = self.cpu.get_status_register();
 
-            if should_remove {
-                match self.test_elements.remove(idx) {
-                    TestElement::Assertion(a) => {
-                        active_assertions.push(a);
-                    }
-                    TestElement::Trace(t) => {
-                        active_traces.push(t);
-                    }
+        for element in self.test_elements.iter_mut() {
+            if let TestElement::Trace(trace) = element {
+                if trace.snapshot.pc.as_u16() != pc {
+                    continue;
                 }
-            } else {
-                idx += 1;
+                let fmt = match trace.exprs.is_empty() {
+                    true => format_cpu_details(&self.cpu, false),
+                    false => {
+                        trace
+                            .snapshot
+                            .symbols
+                            .ensure_cpu_symbols(registers.clone(), flags);
+                        format_trace(trace, &self.ctx.lock().unwrap())
+                    }
+                };
+                self.formatted_traces.push(FormattedTrace(fmt));
             }
         }
 
-        for mut trace in active_traces {
-            let fmt = match trace.exprs.is_empty() {
-                true => format_cpu_details(&self.cpu, false),
-                false => {
-                    trace
-                        .snapshot
-                        .symbols
-                        .ensure_cpu_symbols(self.registers(), self.cpu.get_status_register());
-                    format_trace(trace, &self.ctx.lock().unwrap())
+        for element in self.test_elements.iter_mut() {
+            if let TestElement::Assertion(assertion) = element {
+                if assertion.snapshot.pc.as_u16() != pc {
+                    continue;
                 }
-            };
-            self.formatted_traces.push(FormattedTrace(fmt));
-        }
-
-        for mut assertion in active_assertions {
-            assertion
-                .snapshot
-                .symbols
-                .ensure_cpu_symbols(self.registers(), self.cpu.get_status_register());
-            let ctx = self.ctx.lock().unwrap();
-            let evaluator = assertion.snapshot.get_evaluator(ctx.functions());
-            let eval_result = evaluator
-                .evaluate_expression(&assertion.expr, false)
-                .ok()
-                .flatten();
-            if eval_result == Some(SymbolData::Number(0)) || eval_result.is_none() {
-                let message = assertion.failure_message.clone().unwrap_or_else(|| {
-                    let expr = format!("{}", &assertion.expr.data).trim().to_string();
-                    format!("assertion failed: {}", expr)
-                });
-                let diag = Diagnostic::error()
-                    .with_message(message)
-                    .with_labels(vec![assertion.expr.span.to_label()]);
-                let diagnostic = Diagnostics::from(diag).with_code_map(&self.tree.code_map);
-                let failure = TestFailure {
-                    diagnostic,
-                    assertion: Some(assertion),
-                    cpu: self.cpu.clone(),
-                    traces: self.formatted_traces.clone(),
-                };
-                return Ok(ExecuteResult::TestFailed(
-                    self.num_cycles,
-                    Box::new(failure),
-                ));
+                assertion
+                    .snapshot
+                    .symbols
+                    .ensure_cpu_symbols(registers.clone(), flags);
+                let ctx = self.ctx.lock().unwrap();
+                let evaluator = assertion.snapshot.get_evaluator(ctx.functions());
+                let eval_result = evaluator
+                    .evaluate_expression(&assertion.expr, false)
+                    .ok()
+                    .flatten();
+                if eval_result == Some(SymbolData::Number(0)) || eval_result.is_none() {
+                    let message = assertion.failure_message.clone().unwrap_or_else(|| {
+                        let expr = format!("{}", &assertion.expr.data).trim().to_string();
+                        format!("assertion failed: {}", expr)
+                    });
+                    let diag = Diagnostic::error()
+                        .with_message(message)
+                        .with_labels(vec![assertion.expr.span.to_label()]);
+                    let diagnostic = Diagnostics::from(diag).with_code_map(&self.tree.code_map);
+                    let failure = TestFailure {
+                        diagnostic,
+                        assertion: Some(assertion.clone()),
+                        cpu: self.cpu.clone(),
+                        traces: self.formatted_traces.clone(),
+                    };
+                    return Ok(ExecuteResult::TestFailed(
+                        self.num_cycles,
+                        Box::new(failure),
+                    ));
+                }
             }
         }
 
@@ -390,7 +380,7 @@ impl TestRunner {
     }
 }
 
-fn format_trace(trace: Trace, ctx: &CodegenContext) -> String {
+fn format_trace(trace: &Trace, ctx: &CodegenContext) -> String {
     let mut eval = vec![];
     for expr in &trace.exprs {
         let evaluator = trace.snapshot.get_evaluator(ctx.functions());
